@@ -30,6 +30,13 @@ pub enum MVal {
     Map(BTreeMap<MKey, MVal>),
 }
 
+/// structural identity (NOT the reference `==` of the template language, see `eq`): floats by bits
+impl PartialEq for MVal {
+    fn eq(&self, other: &Self) -> bool {
+        canon(self) == canon(other)
+    }
+}
+
 #[derive(Debug, Clone, PartialEq)]
 pub struct MErr(pub &'static str);
 pub type MRes = Result<MVal, MErr>;
